@@ -116,15 +116,13 @@ def genAlloc (a : Arena) (i nb : Nat) (commit osOk ic : Bool) (ob : AObs) : Opti
     if m.initially_committed != ic then some s!"generated mi_arena_try_alloc_at: initially_committed {m.initially_committed}, the code {ic}"
     else if !genAMatches r.1 ob then some "state after the generated mi_arena_try_alloc_at differs from the code"
     else none
-/-- _mi_arena_free = (hand-written) marking of a partly committed range, the *generated* mi_arena_schedule_purge, release of the in-use bits -/
+/-- the arena branch of _mi_arena_free through the generated `_mi_arena_free_core` -/
 def genFree (a : Arena) (i nb : Nat) (allc : Bool) (mode : Nat) (gone : Bool) (ob : AObs) : Option String :=
-  let σ0 := toGenA (aMark a i nb allc) 1000
+  let σ0 := toGenA a 1000
   let delay : Int := if mode = 0 then -1 else if mode = 1 then 0 else 10
   let cands := [(false, false), (true, false), (true, gone)]
-  let ok := cands.any (fun c =>
-    let σ1 := GenR.mi_arena_schedule_purge σ0 (i : Int) (nb : Int) delay false c.1 c.2 c.1 c.2 1000
-    genAMatches { σ1 with inuse := GenR.mClr σ1.inuse (i : Int) (nb : Int) } ob)
-  if ok then none else some "no outcome of the OS purge makes the generated mi_arena_schedule_purge / mi_arena_purge agree with the code"
+  let ok := cands.any (fun c => genAMatches (GenR._mi_arena_free_core σ0 allc (i : Int) (nb : Int) delay false c.1 c.2 c.1 c.2 1000) ob)
+  if ok then none else some "no outcome of the OS purge makes the generated _mi_arena_free_core agree with the code"
 
 def splitBar (ws : List String) : List String × List String :=
   (ws.takeWhile (· ≠ "|"), ws.dropWhile (· ≠ "|"))
